@@ -283,6 +283,37 @@ def _body_open(text, m, kind_fn=True):
     return b
 
 
+def _thing_end(text, m, j):
+    """end (exclusive) of the item / statement / match arm / tail expression
+    that starts at j"""
+    i = j
+    n = len(text)
+    while i < n:
+        if not m[i]:
+            i += 1
+            continue
+        c = text[i]
+        if c in ';,':
+            return i + 1
+        if c in ')]}':
+            return i
+        if c in '([':
+            i = rl.match_close(text, m, i) + 1
+            continue
+        if c == '{':
+            i = rl.match_close(text, m, i) + 1
+            k = i
+            while k < n and text[k].isspace():
+                k += 1
+            if k < n and text[k] == ',':
+                return k + 1
+            if k < n and (text[k] in '.?' or text.startswith('else', k)):
+                continue
+            return i
+        i += 1
+    return n
+
+
 def _cfg_drop(text, pred, strip_only, what):
     n = 0
     while True:
@@ -309,21 +340,7 @@ def _cfg_drop(text, pred, strip_only, what):
                     j = k2 + 1
                 else:
                     break
-            b = rl.first_code_char(text, m, '{', j)
-            s = rl.first_code_char(text, m, ';', j)
-            c = rl.first_code_char(text, m, ',', j)
-            cands = [(x, t) for x, t in ((b, '{'), (s, ';'), (c, ',')) if x >= 0]
-            x, t = min(cands)
-            if t == '{':
-                e = rl.match_close(text, m, x) + 1
-                # a match arm `pat => { ... }` may be followed by ','
-                k = e
-                while k < len(text) and text[k] in ' \t':
-                    k += 1
-                if k < len(text) and text[k] == ',':
-                    e = k + 1
-            else:
-                e = x + 1
+            e = _thing_end(text, m, j)
             text = _pad_sub(text, mm.start(), e, '')
         n += 1
     if n == 0:
